@@ -32,6 +32,7 @@ WITNESS = [
     (r"hashtable::HashTable::", "append:engine_core/src/engine/table.rs", "inkayaku_engine_core", "c18_fifo_map.rs", "verif_witness_c18"),
     (r"hashes::", "board", "inkayaku_board", "c06_hashes.rs", "witness_c06"),
     (r"eval::", "append:engine_core/src/engine/heuristic/simple.rs", "inkayaku_engine_core", "c11_symmetry.rs", "verif_witness_c11"),
+    (r"heuristic::Heuristic::(score_from_value|is_checkmate)", "append:engine_core/src/engine/heuristic/simple.rs", "inkayaku_engine_core", "c11_symmetry.rs", "verif_witness_c11_mate"),
     (r"search_rep::", "engine_core", "inkayaku_engine_core", "c10_repetition.rs", "witness_c10"),
     (r"lemma_shipped_thresholds|Heuristic::evaluate", "append:engine_core/src/engine/heuristic/simple.rs", "inkayaku_engine_core", "c10_fifty_move.rs", "verif_witness_c10"),
 ]
